@@ -34,12 +34,28 @@ def check_fold(project: Project, rep, weight, kernel, sigma, skew):
     e = r.elem
     # top-level shape: Σ over the points of the diagram (possibly inside an ITE on configuration)
     sums = [x for x in sym.walk(e) if x[0] == "sum" and x[2] == ("rows", "X")]
-    loops = [ev for ev in I.log if ev["kind"] == "loop" and ev["fi"] is fi]
+    loops = [ev for ev in I.log if ev["kind"] == "loop"]  # in _transform or in a helper it delegates to
     accs = [(ev, n, c) for ev in loops for n, c in ev["carried"].items() if c.get("kind") == "fold"]
     if not accs:
-        rep.refuted("AD-FOLD", fi, fi.node, f"{tag}: the image is not accumulated as a sum over the points (no additive "
-                                            f"fold): it cannot be additive over unions of diagrams",
-                    construct=f"{TR}: accumulation [{tag}]")
+        # no accumulation loop: decide on the value itself — a linear combination of Σ over the points whose bodies read
+        # the point being summed only is additive all the same (vectorised form)
+        terms, const = sym.lin_parts(e)
+        pt_sums = [t for t in terms if t[0] == "sum" and t[2] == ("rows", "X")]
+        reads_x = any(x[0] == "in" and x[1] == "X" for x in sym.walk(e)) or any(x[0] == "size" and x[1] == ("rows", "X") for x in sym.walk(e))
+        if I.lossy or I.unmodelled:
+            rep.unmodelled("AD-FOLD", fi, fi.node, f"{tag}: no accumulation over the points was recognised and the run is not exact")
+        elif pt_sums and len(pt_sums) == len(terms) and const == 0 and all(
+                not any(a[0] == "in" and a[1] == "X" and not (isinstance(a[2][0], tuple) and a[2][0] == (t[1], 0)) for a in sym.walk(t[3]))
+                and not any(x[0] in ("sum", "red") and x is not t and ("rows", "X") in (x[2], x[3] if len(x) > 3 else None)
+                            for x in sym.walk(t[3])) for t in pt_sums):
+            rep.discharged("AD-FOLD", fi, fi.node, f"{tag}: image = Σ_i g(point i, configuration) (no loop: the sum is taken by an "
+                                                   f"array reduction): additive over disjoint unions, all-zero for zero points")
+        elif not reads_x:
+            rep.refuted("AD-FOLD", fi, fi.node, f"{tag}: the image does not depend on the points of the diagram at all",
+                        construct=f"{TR}: accumulation [{tag}]")
+        else:
+            rep.unmodelled("AD-FOLD", fi, fi.node, f"{tag}: the image is not accumulated by a loop over the points and its value "
+                                                   f"{sym.show(e)[:80]} is not a plain sum over them; additivity not decided")
         return
     for ev, n, c in accs:
         init = c["init"]
@@ -60,7 +76,13 @@ def check_fold(project: Project, rep, weight, kernel, sigma, skew):
         carry_terms = [t for t in terms if t[0] == "opq" and t[1] == "carry"]
         rest = sym.sub(ue, carry_terms[0]) if carry_terms else ue
         iv = ev["ivar"]
+        rest = _drop_vacuous_guards(rest, iv)
         glob = [x for x in sym.walk(rest) if x[0] in ("sum", "red") and ("rows", "X") in (x[2], x[3] if len(x) > 3 else None)]
+        if glob and all(x[0] == "red" and x[1] in ("any", "all") for x in glob):
+            rep.unmodelled("AD-FOLD", fi, ev["node"],
+                           f"{tag}: the contribution of a point is guarded by a test over the whole diagram "
+                           f"({sym.show(glob[0])[:80]}) that could not be shown vacuous")
+            continue
         if glob:
             rep.refuted("AD-FOLD", fi, ev["node"],
                         f"{tag}: the contribution of a point depends on the whole diagram ({sym.show(glob[0])[:100]}): the image "
@@ -83,6 +105,26 @@ def check_fold(project: Project, rep, weight, kernel, sigma, skew):
             else:
                 rep.refuted("AD-ZERO", fi, ev["node"], f"{tag}: the contribution of a point does not vanish with its weight: "
                                                        f"{sym.show(rest)[:160]}")
+
+
+def _drop_vacuous_guards(e, iv):
+    """ite(any_j c(j), A, B) = A whenever A with c(i) := False is B (i the point being accumulated): when no point satisfies
+    c the guarded branch would have done nothing for point i either — the usual `if mask.any(): out[mask] = ...` guard of
+    vectorised code.  Applied bottom-up until nothing changes."""
+    def once(x):
+        if x[0] == "ite" and x[1][0] == "red" and x[1][1] == "any" and x[1][3] == ("rows", "X"):
+            j, body = x[1][2], x[1][4]
+            ci = sym.subst_ivar(body, j, (iv, 0))
+            a0 = sym.subst(x[2], {ci: sym.FALSE})
+            if a0 == x[3]:
+                return x[2]
+        return x
+    for _ in range(6):
+        e2 = sym.rebuild(e, once)
+        if e2 == e:
+            break
+        e = e2
+    return e
 
 
 def _imager(project):
